@@ -37,14 +37,19 @@ type POp struct {
 }
 
 type Case struct {
-	Binary     bool    `json:"binary"`
-	Dests      int     `json:"dests"`
-	Queue      int     `json:"queue"`
-	Common     pbt.M   `json:"common,omitempty"`
-	MaxPacket  int32   `json:"maxPacket"`
-	IDName     string  `json:"idName,omitempty"`
-	BucketName string  `json:"bucketName,omitempty"`
-	Producers  [][]POp `json:"producers"`
+	Binary     bool   `json:"binary"`
+	Dests      int    `json:"dests"`
+	Queue      int    `json:"queue"`
+	Common     pbt.M  `json:"common,omitempty"`
+	MaxPacket  int32  `json:"maxPacket"`
+	IDName     string `json:"idName,omitempty"`
+	BucketName string `json:"bucketName,omitempty"`
+	// ViaConfig (Compact protocol and default bucket tag names only - the configuration struct has no
+	// fields for the others): the reporter is built through m3.Configuration.NewReporter. 1: HostPorts
+	// lists the destinations and HostPort (a required field of the struct) repeats the first of them,
+	// as a validated multi-destination configuration does; 2: HostPorts only.
+	ViaConfig int     `json:"viaConfig,omitempty"`
+	Producers [][]POp `json:"producers"`
 	// SharedBurst > 0: every producer additionally reports SharedBurst distinct values through
 	// ONE counter, ONE gauge and ONE timer handle shared by all producers
 	SharedBurst int `json:"sharedBurst,omitempty"`
@@ -77,6 +82,9 @@ func gen(t *rapid.T) Case {
 	c.MaxPacket = int32(rapid.SampledFrom([]int{1440, 1440, 4000, 32768}).Draw(t, "maxPacket"))
 	if rapid.IntRange(0, 4).Draw(t, "customNames") == 0 {
 		c.IDName, c.BucketName = "bid", "le"
+	}
+	if !c.Binary && c.IDName == "" && rapid.IntRange(0, 3).Draw(t, "viaConfig?") == 0 {
+		c.ViaConfig = rapid.IntRange(1, 2).Draw(t, "viaConfig")
 	}
 	np := rapid.IntRange(1, 4).Draw(t, "nproducers")
 	for p := 0; p < np; p++ {
@@ -195,8 +203,19 @@ func run(c Case) (pbt.Outcome, error) {
 		time.Sleep(time.Duration(c.OtherMS) * time.Millisecond)
 	}
 	tConstructed := time.Now().UnixNano()
-	r, err := m3.NewReporter(m3.Options{HostPorts: addrs, Service: "svc", Env: "test", CommonTags: c.Common.Std(), Protocol: proto,
-		MaxQueueSize: c.Queue, MaxPacketSizeBytes: c.MaxPacket, HistogramBucketIDName: c.IDName, HistogramBucketName: c.BucketName})
+	var r m3.Reporter
+	var err error
+	if c.ViaConfig > 0 && !c.Binary && c.IDName == "" {
+		cfg := m3.Configuration{HostPorts: addrs, Service: "svc", Env: "test", CommonTags: c.Common.Std(), Queue: c.Queue, PacketSize: c.MaxPacket}
+		if c.ViaConfig == 1 {
+			cfg.HostPort = addrs[0]
+		}
+		r, err = cfg.NewReporter()
+		out.Classes = append(out.Classes, "built-from-configuration")
+	} else {
+		r, err = m3.NewReporter(m3.Options{HostPorts: addrs, Service: "svc", Env: "test", CommonTags: c.Common.Std(), Protocol: proto,
+			MaxQueueSize: c.Queue, MaxPacketSizeBytes: c.MaxPacket, HistogramBucketIDName: c.IDName, HistogramBucketName: c.BucketName})
+	}
 	if err != nil {
 		return out, fmt.Errorf("NewReporter: %v", err)
 	}
